@@ -269,7 +269,7 @@ def gen_file(rng, force: dict = None):
   return data, ast
 
 
-def gen_dh_file(rng):
+def gen_dh_file(rng, dsc=None):
   """Directed class: teletext file of double-height subtitles, some with empty double-height rows (runs of four newline
   codes), at positions that fit the 23 rows; several share their last occupied row with a differently shaped one."""
   rate = 25
@@ -301,7 +301,7 @@ def gen_dh_file(rng):
                      "newline_runs": runs})
     sn += 1
     t += 3
-  gsi_kw = {"dfc": "STL25.01", "dsc": rng.choice(["1", "2"]), "cct": "00", "lc": "09", "tcp": "00000000", "mnr": "23"}
+  gsi_kw = {"dfc": "STL25.01", "dsc": rng.choice(["1", "2"]) if dsc is None else dsc, "cct": "00", "lc": "09", "tcp": "00000000", "mnr": "23"}
   data = assemble(gsi_kw, ttis)
   ast = {"gsi": gsi_kw, "t0": [0, 0, 0, 0], "rate": rate, "n_tti": len(ttis), "subs": subs_ast, "irregular_cs": False,
          "tcp_bad": False, "mnr_bad": False}
